@@ -1436,9 +1436,8 @@ func opcodeLShift(op *ParsedOpcode, t *thread) error {
 	if err != nil {
 		return err
 	}
-	n := num.Int()
 
-	if n < 0 {
+	if num.LessThanInt(0) {
 		return errs.NewError(errs.ErrNumberTooSmall, "n less than 0")
 	}
 
@@ -1447,24 +1446,22 @@ func opcodeLShift(op *ParsedOpcode, t *thread) error {
 		return err
 	}
 
-	l := len(x)
-	for i := 0; i < l-1; i++ {
-		x[i] = x[i]<<n | x[i+1]>>(8-n)
-	}
-	x[l-1] <<= n
-
-	t.dstack.PushByteArray(x)
+	t.dstack.PushByteArray(shiftBytes(x, num, true))
 	return nil
 }
 
+// opcodeRShift pops the first item off the stack as an integer and shifts the
+// second item (a byte array, treated as a big-endian bit string) to the right by
+// that many bits, keeping its length.
+//
+// Stack transformation: x n OP_RSHIFT -> out
 func opcodeRShift(op *ParsedOpcode, t *thread) error {
 	num, err := t.dstack.PopInt()
 	if err != nil {
 		return err
 	}
-	n := num.Int()
 
-	if n < 0 {
+	if num.LessThanInt(0) {
 		return errs.NewError(errs.ErrNumberTooSmall, "n less than 0")
 	}
 
@@ -1473,14 +1470,44 @@ func opcodeRShift(op *ParsedOpcode, t *thread) error {
 		return err
 	}
 
-	l := len(x)
-	for i := l - 1; i > 0; i-- {
-		x[i] = x[i]>>n | x[i-1]<<(8-n)
-	}
-	x[0] >>= n
-
-	t.dstack.PushByteArray(x)
+	t.dstack.PushByteArray(shiftBytes(x, num, false))
 	return nil
+}
+
+// shiftBytes returns x, read as a big-endian bit string, shifted by n bits to the
+// left or right. The result is a new slice of the same length (the operand may be
+// shared with other stack items or with the script itself, so it is never written to);
+// bits shifted out are dropped and a shift by the whole width or more yields zeros.
+func shiftBytes(x []byte, n *scriptNumber, left bool) []byte {
+	out := make([]byte, len(x))
+	if !n.LessThanInt(int64(8 * len(x))) {
+		return out
+	}
+
+	byteShift := n.Int() / 8
+	bitShift := uint(n.Int() % 8)
+	for i := range out {
+		if left {
+			src := i + byteShift
+			if src >= len(x) {
+				break
+			}
+			out[i] = x[src] << bitShift
+			if bitShift > 0 && src+1 < len(x) {
+				out[i] |= x[src+1] >> (8 - bitShift)
+			}
+		} else {
+			src := i - byteShift
+			if src < 0 {
+				continue
+			}
+			out[i] = x[src] >> bitShift
+			if bitShift > 0 && src > 0 {
+				out[i] |= x[src-1] << (8 - bitShift)
+			}
+		}
+	}
+	return out
 }
 
 // opcodeBoolAnd treats the top two items on the data stack as integers.  When
